@@ -24,6 +24,8 @@ int    g_old_len, g_new_len; /* strlen of the current / the new name */
 int    g_old_hsz;
 /* VSsetfields: what the specification-level lookup expects for ghost field g_k, and the true total */
 int32  g_exp_isize, g_exp_total;
+int32  g_exp_esize; /* order x native size of the ghost field's type */
+int32  g_exp_ok;    /* every requested name is defined (user table first, then the predefined fields) */
 int16  g_exp_type;
 uint16 g_exp_order;
 char   g_old_c; /* character at ghost position g_o of the current name */
@@ -224,32 +226,48 @@ int32 VSsetclass(int32 vkey, const char *vsclass)
                       (g_vs->marked == TRUE && g_vs->new_h_sz == (g_old_len < g_new_len ? TRUE : g_old_hsz)))
     __CPROVER_ensures(__CPROVER_return_value == FAIL ==> (g_vs->vsclass[g_o] == g_old_c && g_vs->new_h_sz == g_old_hsz));
 
-/* ---- VSsetfields, write list of a new vdata (access 'w', no records, no fields yet) ---- */
+/* ---- VSsetfields, write list of a new vdata (access 'w', no records, no fields yet).
+   The number of requested fields is a CONSTANT per run (SF_AC = 1, 2, 3) so that the five sub-arrays of
+   wlist->bptr sit at concrete offsets; names are at most NMLEN = 2 characters (the predefined fields are
+   "PX".."NZ") and are compared by an unrolled exact strcmp.  What the lookup of each requested name must
+   give (user table first, then predefined) is computed by the harness with a specification-level lookup
+   and handed to the contract in g_exp_*. ---- */
 #define WL (g_vs->wlist)
 #define WL_ISZ(j) ((j) < WL.n ? (int32)WL.isize[j] : 0)
+#define SF_GATE_BAD (fields == NULL || KEY_BAD || g_scan_ret == FAIL || g_scan_ac == 0)
 int VSsetfields(int32 vkey, const char *fields)
     __CPROVER_requires(ENV_WF && g_vs->access == 'w' && g_vs->nvertices == 0 && g_vs->wlist.n == 0)
     __CPROVER_requires(g_vs->nusym >= 0 && (g_vs->nusym == 0) == (g_vs->usym == NULL))
     __CPROVER_requires(g_scan_ret == FAIL || g_scan_ac >= 0)
     __CPROVER_assigns(g_vs->wlist, g_vs->marked, g_vs->new_h_sz, g_strdup_failed)
     __CPROVER_ensures(__CPROVER_return_value == SUCCEED || __CPROVER_return_value == FAIL)
-    __CPROVER_ensures((fields == NULL || KEY_BAD || g_scan_ret == FAIL || g_scan_ac == 0) ==> __CPROVER_return_value == FAIL)
+    __CPROVER_ensures(SF_GATE_BAD ==> __CPROVER_return_value == FAIL)
     /* C20: more than VSFIELDMAX fields are refused */
     __CPROVER_ensures(g_scan_ac > VSFIELDMAX ==> __CPROVER_return_value == FAIL)
+    /* a name that is neither user-defined nor predefined is refused */
+    __CPROVER_ensures(!g_exp_ok ==> __CPROVER_return_value == FAIL)
+    /* C20: a record size (the SUM over all requested fields, user-defined and predefined alike) that does
+       not fit the 16-bit header field is refused, never wrapped */
+    __CPROVER_ensures(g_exp_total > MAX_FIELD_SIZE ==> __CPROVER_return_value == FAIL)
+    /* ... and nothing else is: a well-formed request succeeds (allocation failure apart) */
+    __CPROVER_ensures((!SF_GATE_BAD && g_scan_ac <= VSFIELDMAX && g_exp_ok && g_exp_total <= MAX_FIELD_SIZE && !g_strdup_failed) ==>
+                      __CPROVER_return_value == SUCCEED)
     /* C07: on success all requested fields are in the table, offsets are the running sum of the
-       field sizes and the record size is their total (bounded: at most 4 fields) */
+       field sizes and the record size is their total (at most 4 fields per run) */
     __CPROVER_ensures(__CPROVER_return_value == SUCCEED ==> (WL.n == g_scan_ac && WL.n <= 4))
     __CPROVER_ensures((__CPROVER_return_value == SUCCEED && g_k >= 0 && g_k < WL.n) ==>
                       (int32)WL.off[g_k] == (g_k > 0 ? WL_ISZ(0) : 0) + (g_k > 1 ? WL_ISZ(1) : 0) + (g_k > 2 ? WL_ISZ(2) : 0))
     __CPROVER_ensures(__CPROVER_return_value == SUCCEED ==>
                       (int32)WL.ivsize == WL_ISZ(0) + WL_ISZ(1) + WL_ISZ(2) + WL_ISZ(3))
+    __CPROVER_ensures(__CPROVER_return_value == SUCCEED ==> (int32)WL.ivsize == g_exp_total)
+    /* each field: type and order of its CURRENT definition, stored size = order x size of that type,
+       memory size = order x native size of that type */
     __CPROVER_ensures((__CPROVER_return_value == SUCCEED && g_k >= 0 && g_k < WL.n) ==>
                       ((int32)WL.isize[g_k] == g_exp_isize && WL.type[g_k] == g_exp_type && WL.order[g_k] == g_exp_order &&
-                       WL.name[g_k] != NULL))
-    /* C20: a record size that does not fit the 16-bit header field is refused, never wrapped */
-    __CPROVER_ensures(g_exp_total > MAX_FIELD_SIZE ==> __CPROVER_return_value == FAIL)
-    /* C20: after a refused request the vdata is as before (no half-built field list) */
-    __CPROVER_ensures(__CPROVER_return_value == FAIL ==> WL.n == 0);
+                       (int32)WL.esize[g_k] == g_exp_esize && WL.name[g_k] != NULL))
+    __CPROVER_ensures(__CPROVER_return_value == SUCCEED ==> (g_vs->marked == TRUE && g_vs->new_h_sz == TRUE))
+    /* C20: after a refused request the vdata is as before: no half-built field list */
+    __CPROVER_ensures(__CPROVER_return_value == FAIL ==> (WL.n == 0 && WL.ivsize == __CPROVER_old(g_vs->wlist.ivsize)));
 
 #ifdef H4V_NATIVE
 #include "h4v_native_wrap.h"
@@ -431,7 +449,9 @@ h_VSsetclass(void)
     H4V_CANARY("VSsetclass end");
 }
 
-/* ---- VSsetfields (bounded): <= 4 requested fields, <= 3 user symbols, names <= NMLEN chars ---- */
+/* ---- VSsetfields (bounded): SF_AC requested fields (constant per run), SF_NUSYM user symbols with
+   arbitrary definitions (what VSfdefine stores) and arbitrary names of <= NMLEN characters (so user
+   fields may shadow each other and the predefined ones), tokens arbitrary names of <= NMLEN characters ---- */
 static const char *const spec_rs_name[9] = {"PX", "PY", "PZ", "IX", "IY", "IZ", "NX", "NY", "NZ"};
 static int
 spec_streq(const char *a, const char *b)
@@ -444,8 +464,8 @@ spec_streq(const char *a, const char *b)
     }
     return 1;
 }
-/* specification-level lookup: first user symbol of that name, else the reserved symbol (4-byte
-   float32/int32, order 1); returns the field size or -1 */
+/* specification-level lookup: first user symbol of that name, else the predefined field (4-byte
+   float32/int32, order 1); returns the stored field size = order x size of the type, or -1 */
 static int32
 spec_lookup(VDATA *vs, const char *tok, int16 *type, uint16 *order)
 {
@@ -453,7 +473,7 @@ spec_lookup(VDATA *vs, const char *tok, int16 *type, uint16 *order)
         if (j < vs->nusym && spec_streq(tok, vs->usym[j].name)) {
             *type  = vs->usym[j].type;
             *order = vs->usym[j].order;
-            return (int32)vs->usym[j].order * (int32)vs->usym[j].isize;
+            return (int32)vs->usym[j].order * (int32)DFKNTsize(vs->usym[j].type);
         }
     for (int j = 0; j < 9; j++)
         if (spec_streq(tok, spec_rs_name[j])) {
@@ -464,67 +484,95 @@ spec_lookup(VDATA *vs, const char *tok, int16 *type, uint16 *order)
     return -1;
 }
 
-#ifndef SF_NTOK
-#define SF_NTOK 4
+#ifndef SF_AC
+#define SF_AC 2
 #endif
 #ifndef SF_NUSYM
-#define SF_NUSYM 3
+#define SF_NUSYM 2
 #endif
 void
 h_VSsetfields_new(void)
 {
     VDATA *vs = mk_env();
-    H4V_ND(int16, nusym);
     H4V_ND(int32, scan_ret);
-    H4V_ND(int32, scan_ac);
     H4V_ND(int, fields_null);
-    H4V_ASSUME(nusym >= 0 && nusym <= SF_NUSYM);
     H4V_ASSUME(scan_ret == FAIL || scan_ret == SUCCEED);
-    /* up to 4 tokens, or any count above the limit (the token vector is then never read) */
-    H4V_ASSUME((scan_ac >= 0 && scan_ac <= SF_NTOK) || scan_ac > VSFIELDMAX);
     g_scan_ret = scan_ret;
-    g_scan_ac  = scan_ac;
-    SYMDEF *usym = nusym ? malloc(3 * sizeof(SYMDEF)) : NULL;
-    H4V_ASSUME(nusym == 0 || usym != NULL);
-    H4V_ND_BUF(uint16, us_type, nusym, 3);
-    H4V_ND_BUF(uint16, us_isize, nusym, 3);
-    H4V_ND_BUF(uint16, us_order, nusym, 3);
-    H4V_ND_BUF(uint8, us_name, nusym *(NMLEN + 1), 3 * (NMLEN + 1));
-    for (int i = 0; i < 3; i++)
-        if (i < nusym) {
-            H4V_ASSUME(us_type[i] <= 32767);
-            /* what VSfdefine stores: a known type with its size, order in [1, MAX_ORDER] */
-            H4V_ASSUME(us_order[i] >= 1 && DFKNTsize(us_type[i]) == us_isize[i]);
-            us_name[i * (NMLEN + 1) + NMLEN] = 0;
-            usym[i].name                     = (char *)&us_name[i * (NMLEN + 1)];
-            usym[i].type                     = (int16)us_type[i];
-            usym[i].isize                    = us_isize[i];
-            usym[i].order                    = us_order[i];
-        }
-    mk_tokens(scan_ac, 4);
-    vs->nusym     = nusym;
+    g_scan_ac  = SF_AC;
+    static SYMDEF usym_tab[3];
+    SYMDEF       *usym = SF_NUSYM ? usym_tab : NULL;
+    H4V_ND_BUF(uint16, us_type, SF_NUSYM, 3);
+    H4V_ND_BUF(uint16, us_order, SF_NUSYM, 3);
+    H4V_ND_BUF(uint8, us_name, SF_NUSYM *(NMLEN + 1), 3 * (NMLEN + 1));
+    for (int i = 0; i < SF_NUSYM; i++) {
+        H4V_ASSUME(us_type[i] <= 32767);
+        /* what VSfdefine stores: a known type with its size, order in [1, MAX_ORDER], order x size <= MAX_FIELD_SIZE */
+        int32 tsz = DFKNTsize(us_type[i]);
+        H4V_ASSUME(us_order[i] >= 1 && tsz > 0 && (int32)us_order[i] * tsz <= MAX_FIELD_SIZE);
+        us_name[i * (NMLEN + 1) + NMLEN] = 0;
+        usym[i].name                     = (char *)&us_name[i * (NMLEN + 1)];
+        usym[i].type                     = (int16)us_type[i];
+        usym[i].isize                    = (uint16)tsz;
+        usym[i].order                    = us_order[i];
+    }
+    mk_tokens(SF_AC, 4);
+    vs->nusym     = SF_NUSYM;
     vs->usym      = usym;
     vs->access    = 'w';
     vs->nvertices = 0;
     /* expectations of the specification-level lookup */
     g_exp_total = 0;
     g_exp_isize = -1;
-    for (int i = 0; i < 4; i++)
-        if (i < scan_ac) {
-            int16  t = 0;
-            uint16 o = 0;
-            int32  sz = spec_lookup(vs, g_av[i], &t, &o);
-            if (sz > 0)
-                g_exp_total += sz;
-            if (i == g_k) {
-                g_exp_isize = sz;
-                g_exp_type  = t;
-                g_exp_order = o;
-            }
+    g_exp_ok    = 1;
+    for (int i = 0; i < SF_AC; i++) {
+        int16  t  = 0;
+        uint16 o  = 0;
+        int32  sz = spec_lookup(vs, g_av[i], &t, &o);
+        if (sz > 0)
+            g_exp_total += sz;
+        else
+            g_exp_ok = 0;
+        if (i == g_k) {
+            g_exp_isize = sz;
+            g_exp_type  = t;
+            g_exp_order = o;
+            g_exp_esize = (int32)o * (int32)DFKNTsize(t | DFNT_NATIVE);
         }
+    }
     int r = VSsetfields(7, fields_null ? NULL : "x");
-    H4V_COVER(r == SUCCEED && vs->wlist.n == 4, "VSsetfields sets 4 fields");
-    H4V_COVER(r == SUCCEED && vs->wlist.n == 2 && nusym == 2 && vs->wlist.type[0] == DFNT_FLOAT32, "VSsetfields mixes reserved and user fields");
-    H4V_COVER(r == FAIL && scan_ac == 300, "VSsetfields refuses 300 fields");
+    H4V_COVER(r == SUCCEED && vs->wlist.n == SF_AC, "VSsetfields sets all requested fields");
+#if SF_AC >= 2 && SF_NUSYM >= 1
+    H4V_COVER(r == SUCCEED && vs->wlist.type[0] == DFNT_FLOAT32 && vs->wlist.order[1] == 3, "VSsetfields mixes predefined and user fields");
+    H4V_COVER(r == SUCCEED && vs->wlist.ivsize == 65535, "VSsetfields accepts a record of exactly 65535 bytes");
+    H4V_COVER(r == FAIL && g_exp_ok && g_exp_total == 65536 && !fields_null && scan_ret == SUCCEED, "VSsetfields refuses a 65536-byte record");
+#endif
+    H4V_COVER(r == FAIL && !g_exp_ok && !fields_null && scan_ret == SUCCEED, "VSsetfields refuses an undefined name");
     H4V_CANARY("VSsetfields end");
+}
+
+/* the gates in front of the field loop: NULL list, bad key, scanattrs failure, no token, more than
+   VSFIELDMAX tokens -- any token count (the vector is never read on these paths): loop-free */
+void
+h_VSsetfields_gate(void)
+{
+    VDATA *vs = mk_env();
+    H4V_ND(int32, scan_ret);
+    H4V_ND(int32, scan_ac);
+    H4V_ND(int, fields_null);
+    H4V_ASSUME(scan_ret == FAIL || scan_ret == SUCCEED);
+    H4V_ASSUME(scan_ac >= 0);
+    g_scan_ret    = scan_ret;
+    g_scan_ac     = scan_ac;
+    g_av[0]       = NULL;
+    vs->nusym     = 0;
+    vs->usym      = NULL;
+    vs->access    = 'w';
+    vs->nvertices = 0;
+    g_exp_ok      = 0;
+    g_exp_total   = 0;
+    H4V_ASSUME(fields_null || KEY_BAD || scan_ret == FAIL || scan_ac == 0 || scan_ac > VSFIELDMAX);
+    int r = VSsetfields(7, fields_null ? NULL : "x");
+    H4V_COVER(r == FAIL && scan_ac == VSFIELDMAX + 1 && !fields_null && scan_ret == SUCCEED, "VSsetfields refuses 257 fields");
+    H4V_COVER(r == FAIL && scan_ac == 0 && !fields_null && scan_ret == SUCCEED, "VSsetfields refuses an empty list");
+    H4V_CANARY("VSsetfields gate end");
 }
